@@ -13,8 +13,8 @@ a change that breaks the property, still compiles, passes the pinned suite and n
 specific to manifest, with a demonstration. Round 1: one agent per property (20). Round 2: 13 more
 agents on the properties with the largest behaviour space, each told which change had already been
 used for its property. Round 3: 12 more (C01 C02 C06 C07 C11 C12 C13 C15 C16 C17 C19 C20), each told
-the titles of the changes already used. Round 4: 8 more (C03 C04 C05 C08 C09 C10 C14 C18). Every
-returned change was re-confirmed in a new scratch worktree by
+the titles of the changes already used. Round 4: 8 more (C03 C04 C05 C08 C09 C10 C14 C18). Round 5: 11 more
+(C01 C02 C06 C07 C11 C12 C13 C15 C16 C19 C20). Every returned change was re-confirmed in a new scratch worktree by
 `tools/confirm_seed.sh` / `confirm_seed_unit.sh` (patch applies, 33+9 tests pass with it, the
 demonstration fails with it and passes without it; for the two memory-ordering changes the
 demonstration is a Miri run) and then the property's quick check was run against it in /repo
@@ -28,9 +28,9 @@ the same change independently (C02/C03, C06/C07, C08/C11).
 for n,p,needs,c in rows:
     new+=f"| {n} | {p} | {needs.replace('|','/')} | {c} |\\n".replace('\\n','\n')
 new+='''
-All 53 are caught now, on every run, by the quick tier of the property they break. **Twenty were
-missed when first confirmed** (eleven of rounds 1-2, seven of round 3, two of round 4) and led to
-strengthening:
+All 64 are caught now, on every run, by the quick tier of the property they break. **Twenty-four
+were missed when first confirmed** (eleven of rounds 1-2, seven of round 3, two of round 4, four of
+round 5) and led to strengthening:
 
 * *C01-no-fold-after-normalize* (only U+0130 is affected) and *R2-C14-std-is-uppercase* (final
   sigma, long s, micro sign, title-case digraphs): hand-picked alphabets cannot anticipate which
@@ -96,6 +96,20 @@ strengthening:
   the join are never (true, false). Shapes **low_pivot / high_pivot** (nine pivot candidates
   planted near one end) give a first split of ~500 : ~4700 in either order; every comparator-call
   index is still enumerated as cancel moment.
+* *R5-C13-flag-armed-after-spawn*: code moved behind `pool.spawn` runs concurrently with the run,
+  but no hook point separated the two, so the scheduler executed them atomically. Instead of
+  adding yet another named point the flags themselves were instrumented: under the cfg,
+  `AtomicBool` in `lib.rs` / `worker.rs` is a wrapper (`verif::FlagBool`) whose every load and
+  store is a program point carrying the flag's address; accesses to the notification flag are
+  scheduling points in the C13 scenarios **wherever the code performing them sits**.
+* *R5-C20-scan-holds-extra-arc*: "at every point" includes the middle of a run; family `C20s`
+  (five short scripts with a pattern and items, item-level points, one preemption in the quick
+  tier, two in the thorough one).
+* *R5-C07-status-last-edit-only*: family **EE** (two or three edits between two ticks).
+* *R5-C01-prefilter-z-exclusive*: hand-picked ASCII alphabets have the same weakness as
+  hand-picked Unicode ones. Family **ascii-sweep** (each of the 128 ASCII characters as a needle
+  character against itself and its case partner, three needle shapes x four haystack layouts)
+  and domain **ascii-edges** (first/last letter and digit of each range and their neighbours).
 * Confirming *C13-no-retry-for-zero-timeout* exposed a harness bug (a parked thread of a
   deadlocked execution kept a global lock; the next execution stalled and the run ended as a
   machinery failure instead of a verdict) - fixed by a pool of reference matchers.
